@@ -20,7 +20,7 @@ RULE = ("random trees (random + hand-built schemas, parsed grammar-derived texts
         "implementation's own dump, one level at a time; failing setters/removers through a non-resolving path must leave the dump "
         "unchanged; non-trivial = path has >= 2 steps or a qualifier")
 
-TITLES = [b"a", b"b c", b"it's", b"back\\slash", b"p|q", b"x=y", b"Alpha"]
+TITLES = [b"a", b"b c", b"it's", b"back\\slash", b"p|q", b"x=y", b"Alpha", b""]
 
 
 def hand():
